@@ -11,6 +11,16 @@ na = json.loads((V / "tools/not_applicable.json").read_text())
 checks, notapp, known = [], [], []
 registered = set(json.loads((V / "tools/registered.json").read_text()))
 fixed = json.loads((V / "tools/fixed_findings.json").read_text()) if (V / "tools/fixed_findings.json").exists() else []
+# resolve the current hash of every recorded fix commit from its subject line
+import subprocess
+_log = subprocess.run(["git", "-C", "/repo", "log", "--format=%h\t%s"], capture_output=True, text=True).stdout.strip().split("\n")
+_subj = {l.split("\t", 1)[1]: l.split("\t", 1)[0] for l in _log if "\t" in l}
+for e in fixed:
+    if e.get("subject") in _subj and _subj[e["subject"]] != e.get("commit"):
+        e["fixed"] = e["fixed"].replace(e["commit"], _subj[e["subject"]])
+        e["commit"] = _subj[e["subject"]]
+(V / "tools/fixed_findings.json").write_text(json.dumps(fixed, indent=1) + "\n")
+hook_commits = []
 for p in props:
     pid = p["id"]
     d = V / "props" / pid
